@@ -760,7 +760,8 @@ def rdBe32 : Bytes → Nat
 /-- `check_type_and_get_blob_size` + `read_from_input_queue_with_check`: next blob, or `none` at EOF.
     Outer Option: error. -/
 def nextBlob (first : Bool) (bs : Bytes) : Option (Option (Bytes × Bytes)) :=
-  if bs.length < 4 then some none                  -- truncated size field = EOF
+  if bs.isEmpty then some none                     -- nothing left: clean end of file
+  else if bs.length < 4 then none                  -- 1..3 bytes of a size field: "unexpected EOF" (fix ade9cb4)
   else
     let size := rdBe32 bs
     let bs := bs.drop 4
